@@ -824,3 +824,48 @@ N('c09-flag-second', 'C09', MACHINE,
 N('c09-wait-until-break', 'C09', CLOCK,
   "            if not self.wait():\n                return\n            hour, minute",
   "            if not self.wait():\n                break\n            hour, minute")
+
+# ------------------------------------------------------------------ C11
+B('c11-hours-lt-25', 'C11', 'R11.a', TIMEPAT,
+  "        return 0 <= int_hours < 24", "        return 0 <= int_hours < 25")
+B('c11-minutes-range-59', 'C11', 'R11.a', TIMEPAT,
+  "            for minute in range(0, 60):", "            for minute in range(0, 59):")
+B('c11-hours-range-23', 'C11', 'R11.a', TIMEPAT,
+  "            for hour in range(0, 24):", "            for hour in range(0, 23):")
+B('c11-minutes-60-const', 'C11', 'R11.a', TIMEPAT,
+  "    MINUTES_60 = set(range(0, 60))", "    MINUTES_60 = set(range(1, 60))")
+B('c11-leading-digit-3', 'C11', 'R11.a', TIMEPAT,
+  "            return hours[0] in '012'", "            return hours[0] in '0123'")
+B('c11-minutes-le-60', 'C11', 'R11.a', TIMEPAT,
+  "        return 0 <= int_minutes < 60", "        return 0 <= int_minutes <= 60")
+B('c11-union-product', 'C11', 'R11.b', TIMEPAT,
+  """        self._alternatives.extend(other._alternatives)
+
+    def match(self, hours, minutes):
+        return any(hours in hour_set and minutes in minute_set
+                   for hour_set, minute_set in self._alternatives)""",
+  """        self._hour_set.update(other._hour_set)
+        self._minute_set.update(other._minute_set)
+
+    def match(self, hours, minutes):
+        return hours in self._hour_set and minutes in self._minute_set""")
+B('c11-union-ignored-by-match', 'C11', 'R11.b', TIMEPAT,
+  """        return any(hours in hour_set and minutes in minute_set
+                   for hour_set, minute_set in self._alternatives)""",
+  """        return hours in self._hour_set and minutes in self._minute_set""")
+B('c11-init-aliases-operand', 'C11', 'R11.c', MACHINE,
+  "            self._reg.time = inst.param1.copy()", "            self._reg.time = inst.param1")
+B('c11-lexer-own-regex', 'C11', 'R11.e', LEX,
+  "    _TIME_PATTERN = TimePattern.REGEX",
+  "    _TIME_PATTERN = re.compile(r'(\\*|\\d\\d?):(\\d\\d|\\*)')")
+B('c11-number-match-one-digit', 'C11', 'R11.f', TIMEPAT,
+  """                or (pattern[0] in ('*', formatted[0])
+                    and pattern[1] in ('*', formatted[1])))""",
+  """                or (pattern[0] in ('*', formatted[0])
+                    and pattern[1] in ('*', formatted[0])))""")
+N('c11-valid-le-form', 'C11', TIMEPAT,
+  "        return 0 <= int_hours < 24", "        return 0 <= int_hours <= 23")
+N('c11-range-one-arg', 'C11', TIMEPAT,
+  "            for minute in range(0, 60):", "            for minute in range(60):")
+N('c11-const-via-len', 'C11', TIMEPAT,
+  "    HOURS_24 = set(range(0, 24))", "    HOURS_24 = set(range(24))")
